@@ -109,6 +109,39 @@ def gen_pattern_base_case(rng, ctx, k: int = 0) -> Dict:
             "meta": {"kind": "AMORPH", "n": n, "step": 60, "ts_mode": "regular", "cfg": {}}}
 
 
+def gen_cross_base_case(rng, ctx, k: int = 0) -> Dict:
+    """A cross / crossover / crossunder wrapper over two series that exist from the first candle on
+    (raw price fields), with a window that reaches candle 0, over candles whose orientation keeps
+    alternating, fed from empty in small chunks: what the first candles read must not depend on
+    which candle is the newest when they are calculated."""
+    from . import analysis as A
+    f = A.CROSS[k % len(A.CROSS)]
+    n = rng.randint(6, 30)
+    a, b = rng.choice([("close", "open"), ("open", "close"), ("high", "close"), ("close", "low")])
+    spec = {"kind": "AMORPH", "kw": {}, "analysis": {"f": f, "a": a, "b": b, "length": rng.choice([1, 1, 2, 4])}, "round_value": 4}
+    rows = X.gen_rows(rng, n, rng.choice(["walk", "mixed"]), step=60, ts_mode="regular")
+    up = rng.random() < 0.5
+    for j, r in enumerate(rows):
+        r["inds"] = {}
+        # alternate the orientation of the candles every one or two candles
+        lo_, hi_ = sorted([r["open"], r["close"]])
+        if lo_ == hi_:
+            hi_ = round(lo_ + 0.5, 2)
+            r["high"] = max(r["high"], hi_)
+        if (j // rng.choice([1, 1, 2])) % 2 == (0 if up else 1):
+            r["open"], r["close"] = lo_, hi_
+        else:
+            r["open"], r["close"] = hi_, lo_
+    init, chunks = [], []
+    i = 0
+    while i < n:
+        m = rng.choice([1, 1, 2, 3])
+        chunks.append(rows[i:i + m])
+        i += m
+    return {"spec": spec, "cfg": {}, "rows": rows, "init": init, "chunks": chunks,
+            "meta": {"kind": "AMORPH", "n": n, "step": 60, "ts_mode": "regular", "cfg": {}}}
+
+
 def snapshot(ind) -> List[Dict]:
     return [{"ts": gen.to_ts(c.timestamp) if c.timestamp is not None else None,
              "ohlcv": (c.open, c.high, c.low, c.close, c.volume),
